@@ -39,6 +39,9 @@ def run(tier):
     crate_dir = os.path.join(WIT, "pos")
     configs = [("plain", (), ())] if tier == "quick" else [("plain", (), ()), ("unimock_test", ("unimock",), ("test",))]
     total = 0
+    # type-check level: witness modules that speak for C02 must compile (e.g. the const assertions of c02_macro_fragments)
+    from ..corpus import load
+    load(rep, "pos", "plain")
     from ..modgen import generate as modseq_generate
     modseq_dir = modseq_generate(tier)[0]
     crates = [(crate_dir, "wit_pos", cfgname, feats, cfgs) for cfgname, feats, cfgs in configs]
